@@ -87,7 +87,7 @@ def unit_reset_nworld(pid):
       ctx.prove(sess, f"sizes/{label}<{size}:value", cmp("==", kt.post(label, w, i), val()), g, names=names, replay=rp, desc=f"reset_data: {label}[w, i] is reset to the wrong value for some i < {size}")
     ea = z3.Int("e")
     g = And(ea >= 0, cmp("<", ea, S["neq"]), kt.inshape("eq_active_out", w, ea))
-    ctx.prove(sess, "sizes/eq_active<neq", And(kt.written("eq_active_out", w, ea), core.zbool(kt.post("eq_active_out", w, ea)) == core.zbool(kt.pre("eq_active0", ea))), g, names=dict(names, e=ea), replay=lambda m_: (True, "model only (bool field)"), desc="reset_data: eq_active not restored from eq_active0 for some equality")
+    ctx.prove(sess, "sizes/eq_active<neq", And(kt.written("eq_active_out", w, ea), core.zbool(kt.post("eq_active_out", w, ea)) == core.zbool(kt.pre("eq_active0", ea))), g, names=dict(names, e=ea), replay=lib.make_replay(ctx, kt, "capture:checks.resetk:locate_reset:reset_nworld", "reset/eq_active", "goal", goal="checks.resetk:goal_eq_active", env={"idx": [w, ea]}), desc="reset_data: eq_active not restored from eq_active0 for some equality")
 
   return ("sizes/reset_nworld", run)
 
@@ -144,3 +144,12 @@ def goal_cell_value(spec, pre, post):
   if e.get("expect") is not None and abs(v - e["expect"]) > 1e-6:
     return False, f"{e['label']}{e['idx']} = {v}, expected {e['expect']}"
   return True, f"{e['label']}{e['idx']} = {v}"
+
+
+def goal_eq_active(spec, pre, post):
+  """replay goal: eq_active_out[w, e] == eq_active0[e] after the thread"""
+  import numpy as np
+
+  w, e = spec["env"]["idx"]
+  got, want = bool(np.asarray(post["eq_active_out"])[w, e]), bool(np.asarray(pre["eq_active0"])[e])
+  return got == want, f"eq_active[{w}, {e}] = {got} after reset, eq_active0[{e}] = {want}"
